@@ -137,8 +137,16 @@ ROffs == << <<"Z">>, <<"+","0","0",":","0","0">>, <<"-","0","0",":","0","0">>, <
 \* digit shapes of a fraction of length n
 Frac(n, shape) == CASE shape = 1 -> Rep("0", n) [] shape = 2 -> Rep("9", n) [] shape = 3 -> <<"1">> \o Rep("0", n - 1)
                     [] shape = 4 -> Rep("0", n - 1) \o <<"1">> [] shape = 5 -> [i \in 1..n |-> DigitChars[((i * 7) % 10) + 1]]
-Good(z) == {RDates[d] \o <<"T">> \o RTimes[t] \o (IF n = 0 THEN <<>> ELSE <<".">> \o Frac(n, sh)) \o ROffs[o] :
-           d \in 1..Len(RDates), t \in 1..Len(RTimes), n \in 0..40, sh \in 1..5, o \in 1..Len(ROffs)}
+\* thorough tier: more dates (month ends, century years), times and offsets
+XDates == << <<"2","0","0","0","-","0","2","-","2","9">>, <<"1","9","0","0","-","0","2","-","2","8">>, <<"2","0","2","2","-","1","2","-","3","1">>,
+             <<"2","0","2","3","-","0","1","-","0","1">>, <<"0","0","0","1","-","1","2","-","3","1">>, <<"2","0","2","2","-","0","5","-","3","1">> >>
+XTimes == << <<"0","0",":","5","9",":","5","9">>, <<"0","1",":","0","0",":","0","0">>, <<"2","2",":","3","0",":","0","0">> >>
+XOffs == << <<"+","0","1",":","0","0">>, <<"+","0","1",":","3","0">>, <<"-","1","2",":","0","0">>, <<"+","1","2",":","4","5">>, <<"-","0","9",":","3","0">> >>
+GDates == IF Thorough THEN RDates \o XDates ELSE RDates
+GTimes == IF Thorough THEN RTimes \o XTimes ELSE RTimes
+GOffs == IF Thorough THEN ROffs \o XOffs ELSE ROffs
+Good(z) == {GDates[d] \o <<"T">> \o GTimes[t] \o (IF n = 0 THEN <<>> ELSE <<".">> \o Frac(n, sh)) \o GOffs[o] :
+           d \in 1..Len(GDates), t \in 1..Len(GTimes), n \in 0..40, sh \in 1..5, o \in 1..Len(GOffs)}
 \* single-field mutations of a valid timestamp (position, replacement)
 Base == <<"2","0","2","2","-","0","5","-","0","2","T","1","2",":","3","2",":","0","1",".","5","+","0","1",":","0","0">>
 Mutations == { <<6, <<"0","0">> >>, <<6, <<"1","3">> >>, <<9, <<"0","0">> >>, <<9, <<"3","2">> >>, <<12, <<"2","4">> >>, <<15, <<"6","0">> >>,
@@ -159,7 +167,7 @@ C13(z) ==
 \* ---- C14: families expanded by the harness --------------------------------------------------
 HostileAlphabet == <<"0", "7", "-", "+", "a", "Z", ":", "é", "日">>
 C14(z) ==
-  {[op |-> "family_symbol", ty |-> ty, sym |-> Symbols[i], w |-> w, alphabet |-> HostileAlphabet, maxlen |-> IF Thorough THEN 4 ELSE 3] :
+  {[op |-> "family_symbol", ty |-> ty, sym |-> Symbols[i], w |-> w, alphabet |-> HostileAlphabet, maxlen |-> IF Thorough THEN 5 ELSE 3] :
       ty \in {"dt", "date", "time"}, i \in {x \in 1..Len(Symbols) : InShard(x)}, w \in 1..10}
   \cup {[op |-> "family_patterns", ty |-> ty, alphabet |-> QuoteAlphabet, maxlen |-> IF Thorough THEN 6 ELSE 5,
          inputs |-> << <<>>, <<"2">>, <<"2","0","2","2">>, <<"2","0","2","2","-","0","5","-","0","2">>, <<"a","é">>, <<"é","日","é">>,
